@@ -260,6 +260,15 @@ def run(ctx):
         for e in ev:
             ctx.nontrivial.add((e["entry"], s, e.get("w"), e.get("wanttitle")))
         trs.append({"tid": i + 1, "ev": ev})
+    # many points in one figure (more than 256)
+    npts = 300
+    fps = [rng.random() * 0.6 for _ in range(npts)]
+    fms = [rng.random() * 0.4 for _ in range(npts)]
+    ev = [figure_event(ctx, plt, workdir, "plots.show_multiple_phasePlot (300 points)", lambda: P.show_multiple_phasePlot(fps, fms, getFig=True),
+                       "phase", coords=list(zip(fps, fms)), getfig=True, title="Diagram of states", labels=[""] * npts, xlim=1, ylim=1),
+          figure_event(ctx, plt, workdir, "plots.save_multiple_uverskyPlot (300 points)", lambda: P.save_multiple_uverskyPlot(fms, fps, os.path.join(workdir, "many"), ["p%d" % k for k in range(npts)]),
+                       "uversky", coords=list(zip(fps, fms)), save=True, title="Uversky plot", labels=["p%d" % k for k in range(npts)], xlim=1, ylim=1)]
+    trs.append({"tid": len(trs) + 1, "ev": ev})
     verdicts, _ = traces.validate(ctx, "Trace_Plots", trs, timeout=7200)
     for tr in trs:
         v = verdicts[tr["tid"]]
